@@ -37,6 +37,19 @@ var errSpecialEnvelope = fmt.Errorf(
 	io.EOF,
 )
 
+// withoutEOF keeps the text of an error returned by user-supplied code (a
+// codec, a decompressor) but not its chain if that chain contains io.EOF.
+// Callers take an error that wraps io.EOF for the clean end of a stream; a
+// codec that gives up with io.EOF - as encoding/json's Decoder does on input
+// that ends before a value does - has found an undecodable payload, not the
+// end of anything.
+func withoutEOF(err error) error {
+	if errors.Is(err, io.EOF) {
+		return errors.New(err.Error())
+	}
+	return err
+}
+
 func newSpecialEnvelopeError() *Error {
 	return NewError(CodeUnknown, errSpecialEnvelope)
 }
@@ -180,7 +193,7 @@ func (r *envelopeReader) Unmarshal(message any) *Error {
 	}
 
 	if err := r.codec.Unmarshal(data.Bytes(), message); err != nil {
-		return errorf(CodeInvalidArgument, "unmarshal into %T: %w", message, err)
+		return errorf(CodeInvalidArgument, "unmarshal into %T: %w", message, withoutEOF(err))
 	}
 	return nil
 }
